@@ -287,7 +287,7 @@ def check(tier, seed):
         outs, t = BX.run_history(ops)
         R.evaluations += 1
         bad, cps, history = oracle(ops, outs)
-        bad = bad or refusal_unchanged(ops, outs) or old_roots_readable(t, history) or subclass_check(ops, outs)
+        bad = bad or refusal_unchanged(ops, outs) or old_roots_readable(t, history) or ((tier == "quick" or ci % 4 == 0) and subclass_check(ops, outs)) or None
         if not bad and ci % 3 == 0:
             # the root_node property (getter / setter), after the history
             tail, exp = root_node_tail(rng, ops)
